@@ -207,11 +207,12 @@ class ModbusUdpProtocol(protocol.DatagramProtocol):
         :param message: The unencoded modbus response
         :param addr: The (host, port) to send the message to
         """
-        self.control.Counter.BusMessage += 1
-        pdu = self.framer.buildPacket(message)
-        if _logger.isEnabledFor(logging.DEBUG):
-            _logger.debug('send: %s' % b2a_hex(pdu))
-        return self.transport.write(pdu, addr)
+        if getattr(message, 'should_respond', True):
+            self.control.Counter.BusMessage += 1
+            pdu = self.framer.buildPacket(message)
+            if _logger.isEnabledFor(logging.DEBUG):
+                _logger.debug('send: %s' % b2a_hex(pdu))
+            return self.transport.write(pdu, addr)
 
 
 # --------------------------------------------------------------------------- #
